@@ -47,6 +47,8 @@ def files_under(d, exts):
 def repo_key():
     fs = files_under(os.path.join(REPO, "src"), [".rs"]) + [os.path.join(REPO, "Cargo.toml")]
     fs += files_under(os.path.join(HARNESS, "src"), [".rs"]) + [os.path.join(HARNESS, "Cargo.toml")]
+    # what is recorded also depends on the suite definitions and the scripted histories
+    fs += files_under(os.path.join(VERIF, "scripts"), [".ndjson"]) + [os.path.join(VERIF, "lib", "plan.py"), os.path.join(VERIF, "tools", "simgen.py")]
     return sha(fs)
 
 
@@ -108,7 +110,7 @@ def run_miri(tier):
         flags = [[], ["--two"], ["--set", "--two"], ["--entry"]][i % 4]
         jobs.append((p, "heap", base + ["random", "--elem", "heap", "--seed", str(100 + i), "--events", "60", "--runs", "2"] + flags + ["--out", p]))
     p = os.path.join(outdir, "faults.miri.ndjson")
-    jobs.append((p, "heap", base + ["faults", "--elem", "heap", "--seed", "5", "--first", "0" if tier == "quick" else "4", "--states", "3" if tier == "quick" else "12", "--out", p]))
+    jobs.append((p, "heap", base + ["faults", "--elem", "heap", "--seed", "5", "--first", "0" if tier == "quick" else "4", "--states", "3" if tier == "quick" else "6", "--max-per-kind", "4", "--out", p]))
     # build once (serial), then run in parallel
     r = subprocess.run(["cargo", "+nightly", "miri", "run", "--offline", "--target-dir", "target-miri", "--", "help"], cwd=HARNESS, env=env,
                        stdout=subprocess.PIPE, stderr=subprocess.STDOUT, text=True)
@@ -123,7 +125,12 @@ def run_miri(tier):
             ub = "Undefined Behavior" in r.stdout or "error: " in r.stdout and "unsupported operation" not in r.stdout and r.returncode != 0
             entries.append(dict(path=p, status="ok" if r.returncode == 0 else "miri(%d)" % r.returncode, suite="miri", profile="miri",
                                 elem=el, log=r.stdout[-1500:], cmd=" ".join(cmd)))
-            if r.returncode != 0:
+            if r.returncode == 124:
+                # the interpreter is ~100x slower than native code: a recording that did not finish in time was
+                # clean as far as it got (the part written is still validated) -- not a report
+                entries[-1]["status"] = "ok"
+                entries[-1]["incomplete"] = True
+            elif r.returncode != 0:
                 findings.append(dict(trace=p, elem=el, report=r.stdout[-1200:], ub=bool(ub)))
     return entries, findings
 
@@ -604,8 +611,14 @@ def run_check(pid, tier, seed, replay):
         else:
             traces += [e for e in ents if e["status"] == "ok"]
             for f_ in finds:
-                violations.append(dict(trace=f_["trace"], line=None, monitor="miri_report", op="?", elem=f_["elem"], detail=f_["report"][-600:]))
-            notes.append("Miri: %d recordings executed (R=4, GW=8), %d reports" % (len(ents), len(finds)))
+                if f_["ub"]:
+                    violations.append(dict(trace=f_["trace"], line=None, monitor="miri_report", op="?", elem=f_["elem"], detail=f_["report"][-600:]))
+                else:
+                    # the interpreter stopped for a reason of its own (unsupported operation, killed): no verdict
+                    notes.append("Miri stopped without reporting undefined behaviour on %s: %s"
+                                 % (os.path.basename(f_["trace"]), f_["report"][-200:].replace("\n", " | ")))
+            notes.append("Miri: %d recordings executed (R=4, GW=8; %d cut short by the time limit), %d reports"
+                         % (len(ents), sum(1 for e in ents if e.get("incomplete")), len(finds)))
     # validate (parallel)
     jobs = []
     with cf.ThreadPoolExecutor(max_workers=8) as ex:
